@@ -44,6 +44,15 @@ Theorem C20_print_under_pure_fails : forall s name src e,
   run_time_call s src = None -> m_prints src = true ->
   import_module s name src = (s, IExc "SilentContractError").
 Proof. exact print_under_pure_fails. Qed.
+Theorem C20_bare_contract_pure_or_safe : forall base attr c,
+  exec_contract (CAttr base attr) = CSome c -> base = "deal" /\ ((attr = "pure" /\ c = KPure) \/ (attr = "safe" /\ c = KSafe)).
+Proof. exact bare_contract_pure_or_safe. Qed.
+Theorem C20_bare_factory_rejected : forall s name src attr rest,
+  active s = true -> get_contracts (m_body src) = CAttr "deal" attr :: rest -> attr <> "pure" -> attr <> "safe" ->
+  import_module s name src = (s, IExc "RuntimeError").
+Proof. exact bare_factory_rejected. Qed.
+Print Assumptions C20_bare_contract_pure_or_safe.
+Print Assumptions C20_bare_factory_rejected.
 Print Assumptions C20_declared_enforced.
 Print Assumptions C20_print_under_pure_fails.
 Print Assumptions C20_activate_idempotent.
